@@ -9,6 +9,7 @@ CONSTANTS
   NTr = 1
   AsIs_D1 = FALSE
   AsIs_D4 = FALSE
+  AsIs_D17 = FALSE
   AsIs_D7 = TRUE
   Scenarios = {0, 1}
   GenLen = 2
